@@ -1,4 +1,6 @@
 import OutlineModel.Proofs.TieCipherList
+import OutlineModel.Proofs.TieFindKey
+import OutlineModel.Proofs.TieAuth
 import OutlineModel.Proofs.CipherList
 import OutlineModel.Proofs.FirstWins
 import OutlineModel.Model.Auth
@@ -293,5 +295,130 @@ theorem code_key_search_sound_and_complete
         have := List.find?_some hfind
         simpa using this
       exact ⟨(Tie.CipherList.mem_snapOf cl.list ip e).1 (List.mem_of_find?_eq_some hfind), ho, h1.symm⟩
+
+/-! ### the translated `findAccessKey` and the translated authenticator on top of it (service/tcp.go) -/
+
+section FindAccessKey
+variable (snapshot : GoRT.Opaque "service.CipherList" → GoRT.Opaque "netip.Addr" → List (GoRT.ListElem Gen.Code.CipherEntry))
+  (saltSize tagSize : GoRT.Opaque "shadowsocks.EncryptionKey" → Int)
+  (multi : GoRT.Opaque "bytes.Reader" → GoRT.Opaque "io.Reader" → GoRT.Opaque "io.Reader") (newBytesReader : List UInt8 → GoRT.Opaque "bytes.Reader")
+  (since : Int → Int) (unpack : List UInt8 → List UInt8 → GoRT.Opaque "shadowsocks.EncryptionKey" → List UInt8 × Option String)
+  (readFull : GoRT.Opaque "io.Reader" → Int → List UInt8 × Int × Option String) (now : Int)
+  (rd : GoRT.Opaque "io.Reader") (ip : GoRT.Opaque "netip.Addr") (cl : GoRT.Opaque "service.CipherList") (l : GoRT.Opaque "slog.Logger")
+
+/-- **code_findAccessKey**: the translated `findAccessKey`, for every key-list snapshot, reader behaviour, `Unpack`, and
+    cipher sizes that fit the 50 bytes (the generated cipher table does): never panics; returns an entry exactly when
+    the 50 bytes were read and some key of the snapshot opens them — and then the FIRST such entry in snapshot order,
+    with the first `saltSize` bytes as the salt and a reader that replays the bytes read; it marks exactly that element
+    as used (one call on the key list) and marks nothing when it finds none. -/
+theorem code_findAccessKey
+    (hlen : (readFull rd 50).1.length = 50)
+    (hfits : ∀ elt ∈ snapshot cl ip, 0 ≤ saltSize elt.Value.CryptoKey ∧ 0 ≤ tagSize elt.Value.CryptoKey ∧
+      saltSize elt.Value.CryptoKey + 2 + tagSize elt.Value.CryptoKey ≤ 50) :
+    ∃ ent r salt t err log,
+      Gen.Code.findAccessKey snapshot saltSize tagSize multi newBytesReader since unpack readFull now rd ip cl l =
+        some (ent, r, salt, t, err, log) ∧
+      (match ent with
+       | none => err ≠ none ∧ log = [] ∧ r = rd ∧
+           ((readFull rd 50).2.2 ≠ none ∨
+            ∀ elt ∈ snapshot cl ip, Tie.CipherList.opens saltSize tagSize unpack (readFull rd 50).1 elt.Value.CryptoKey = false)
+       | some e => err = none ∧ (readFull rd 50).2.2 = none ∧
+           ∃ elt, (snapshot cl ip).find? (fun x => Tie.CipherList.opens saltSize tagSize unpack (readFull rd 50).1 x.Value.CryptoKey) = some elt ∧
+             e = elt.Value ∧ log = [Tie.FindKey.markEff cl elt.id ip] ∧
+             salt = (readFull rd 50).1.take (saltSize e.CryptoKey).toNat ∧
+             r = multi (newBytesReader (readFull rd 50).1) rd) := by
+  rw [Tie.FindKey.findAccessKey_tie snapshot saltSize tagSize multi newBytesReader since unpack readFull now rd ip cl l hlen hfits]
+  unfold Tie.FindKey.outcome
+  by_cases herr : (readFull rd 50).2.2 = none
+  · cases hf : (snapshot cl ip).find? (fun x => Tie.CipherList.opens saltSize tagSize unpack (readFull rd 50).1 x.Value.CryptoKey) with
+    | none =>
+      refine ⟨none, _, _, _, _, _, by simp [herr]; exact ⟨rfl, rfl, rfl, rfl, rfl⟩, ?_⟩
+      refine ⟨by simp, rfl, rfl, Or.inr ?_⟩
+      intro elt helt
+      have := List.find?_eq_none.1 hf elt helt
+      simpa using this
+    | some elt =>
+      refine ⟨some elt.Value, _, _, _, _, _, by simp [herr]; exact ⟨rfl, rfl, rfl, rfl, rfl⟩, ?_⟩
+      exact ⟨rfl, herr, elt, rfl, rfl, rfl, rfl, rfl⟩
+  · refine ⟨none, _, _, _, _, _, by simp [herr]; exact ⟨rfl, rfl, rfl, rfl, rfl⟩, ?_⟩
+    exact ⟨by simp, rfl, rfl, Or.inl herr⟩
+
+/-- **code_authenticate_end_to_end**: the translated authenticator run on what the translated `findAccessKey` returns
+    (the composition the server executes), for every snapshot, reader, `Unpack`, salt generator and replay cache: it
+    never panics, and its status is ERR_CIPHER exactly when no key of the snapshot opens the first 50 bytes (or they
+    could not be read); otherwise the key id it reports is that of the FIRST entry of the snapshot that opens them, and
+    the status is ERR_REPLAY_SERVER if that entry's salt generator recognises the salt, else the replay cache's verdict
+    (model `add`) on the checksum of that key id and the first `saltSize` bytes. -/
+theorem code_authenticate_end_to_end
+    (newReader : GoRT.Opaque "io.Reader" → GoRT.Opaque "shadowsocks.EncryptionKey" → GoRT.Opaque "shadowsocks.Reader")
+    (newWriter : Tie.Auth.Conn → GoRT.Opaque "shadowsocks.EncryptionKey" → GoRT.Opaque "shadowsocks.Writer")
+    (isSrv : GoRT.Opaque "service.ServerSaltGenerator" → List UInt8 → Bool)
+    (wrap : Tie.Auth.Conn → GoRT.Opaque "shadowsocks.Reader" → GoRT.Opaque "shadowsocks.Writer" → Tie.Auth.Conn)
+    (remoteIP : Tie.Auth.Conn → GoRT.Opaque "netip.Addr")
+    (metrics : GoRT.Opaque "service.ShadowsocksConnMetrics") (rc : Gen.Code.ReplayCache) (conn : Tie.Auth.Conn)
+    (hlen : (readFull ⟨conn.val⟩ 50).1.length = 50)
+    (hfits : ∀ elt ∈ snapshot cl (remoteIP conn), 0 ≤ saltSize elt.Value.CryptoKey ∧ 0 ≤ tagSize elt.Value.CryptoKey ∧
+      saltSize elt.Value.CryptoKey + 2 + tagSize elt.Value.CryptoKey ≤ 50) :
+    ∃ fa log, Gen.Code.findAccessKey snapshot saltSize tagSize multi newBytesReader since unpack readFull now ⟨conn.val⟩ (remoteIP conn) cl l =
+        some (fa.1, fa.2.1, fa.2.2.1, fa.2.2.2.1, fa.2.2.2.2, log) ∧
+      ∃ rc' id c' st effs,
+        Gen.Code.NewShadowsocksStreamAuthenticator newReader newWriter isSrv wrap (fun _ _ _ _ => fa) remoteIP cl rc metrics l conn =
+          some (rc', id, c', st, effs) ∧
+        (match (snapshot cl (remoteIP conn)).find? (fun x => Tie.CipherList.opens saltSize tagSize unpack (readFull ⟨conn.val⟩ 50).1 x.Value.CryptoKey) with
+         | none => st = some "ERR_CIPHER" ∧ id = "" ∧ rc' = rc
+         | some elt =>
+           if (readFull ⟨conn.val⟩ 50).2.2 ≠ none then st = some "ERR_CIPHER" ∧ id = "" ∧ rc' = rc
+           else id = elt.Value.ID ∧
+             let salt := (readFull ⟨conn.val⟩ 50).1.take (saltSize elt.Value.CryptoKey).toNat
+             if isSrv elt.Value.SaltGenerator salt = true then st = some "ERR_REPLAY_SERVER" ∧ rc' = rc
+             else Tie.Replay.abs rc' = ((Tie.Replay.abs rc).add (Replay.preHash (String.toUTF8 elt.Value.ID).toList salt)).1 ∧
+               st = (if ((Tie.Replay.abs rc).add (Replay.preHash (String.toUTF8 elt.Value.ID).toList salt)).2 = true then none
+                     else some "ERR_REPLAY_CLIENT")) := by
+  rw [Tie.FindKey.findAccessKey_tie snapshot saltSize tagSize multi newBytesReader since unpack readFull now ⟨conn.val⟩ (remoteIP conn) cl l hlen hfits]
+  generalize ho : Tie.FindKey.outcome (snapshot cl (remoteIP conn)) saltSize tagSize multi newBytesReader since unpack
+    (readFull ⟨conn.val⟩ 50) now ⟨conn.val⟩ (remoteIP conn) cl = o
+  refine ⟨(o.1, o.2.1, o.2.2.1, o.2.2.2.1, o.2.2.2.2.1), o.2.2.2.2.2, rfl, ?_⟩
+  rw [Tie.Auth.authenticator_tie]
+  by_cases herr : (readFull ⟨conn.val⟩ 50).2.2 = none
+  · cases hf : (snapshot cl (remoteIP conn)).find? (fun x => Tie.CipherList.opens saltSize tagSize unpack (readFull ⟨conn.val⟩ 50).1 x.Value.CryptoKey) with
+    | none =>
+      rw [Tie.FindKey.outcome_not_found _ _ _ _ _ _ _ _ _ _ _ _ herr hf] at ho
+      subst ho
+      simp [Tie.Auth.outcome]
+      exact ⟨_, _, _, _, ⟨rfl, rfl, rfl, rfl⟩, rfl, rfl, rfl⟩
+    | some elt =>
+      rw [Tie.FindKey.outcome_found _ _ _ _ _ _ _ _ _ _ _ _ herr elt hf] at ho
+      subst ho
+      simp only [herr, ne_eq, not_true_eq_false, if_false, Tie.Auth.outcome_found]
+      by_cases hs : isSrv elt.Value.SaltGenerator ((readFull ⟨conn.val⟩ 50).1.take (saltSize elt.Value.CryptoKey).toNat) = true
+      · simp [hs]
+        exact ⟨_, _, _, _, ⟨rfl, rfl, rfl, rfl⟩, rfl, rfl, rfl⟩
+      · simp only [hs, if_false]
+        have h := Tie.Replay.add_tie rc (String.toUTF8 elt.Value.ID).toList ((readFull ⟨conn.val⟩ 50).1.take (saltSize elt.Value.CryptoKey).toNat) _
+          (Tie.Replay.preHash_tie _ _)
+        generalize (String.toUTF8 elt.Value.ID).toList = idb at h ⊢
+        cases hadd : Gen.Code.ReplayCache.Add rc idb ((readFull ⟨conn.val⟩ 50).1.take (saltSize elt.Value.CryptoKey).toNat) with
+        | none => rw [hadd] at h; simp at h
+        | some p =>
+          obtain ⟨rc2, fresh⟩ := p
+          rw [hadd] at h
+          simp only [Option.map_some, Option.some.injEq] at h
+          have h1 := congrArg Prod.fst h
+          have h2 := congrArg Prod.snd h
+          simp only at h1 h2
+          cases fresh
+          · exact ⟨_, _, _, _, _, rfl, rfl, h1, by rw [← h2]; rfl⟩
+          · exact ⟨_, _, _, _, _, rfl, rfl, h1, by rw [← h2]; rfl⟩
+  · rw [Tie.FindKey.outcome_read_error _ _ _ _ _ _ _ _ _ _ _ _ herr] at ho
+    subst ho
+    cases hf : (snapshot cl (remoteIP conn)).find? (fun x => Tie.CipherList.opens saltSize tagSize unpack (readFull ⟨conn.val⟩ 50).1 x.Value.CryptoKey) with
+    | none =>
+      simp [Tie.Auth.outcome]
+      exact ⟨_, _, _, _, ⟨rfl, rfl, rfl, rfl⟩, rfl, rfl, rfl⟩
+    | some elt =>
+      simp [herr, Tie.Auth.outcome]
+      exact ⟨_, _, _, _, ⟨rfl, rfl, rfl, rfl⟩, rfl, rfl, rfl⟩
+
+end FindAccessKey
 
 end OutlineModel.Props.C01
